@@ -2,7 +2,7 @@ SPECIFICATION Spec
 CONSTANTS
   Family = "pairfull"
   Prefixes = {"", "u", "r", "b", "rb"}
-  Quotes = {1, 4}
+  Quotes = {4}
   Alphabet = "all"
   MaxAtoms = 2
   MaxParts = 1
